@@ -1289,6 +1289,13 @@ func (x *Exec) acquire(p *Path, own Owner, label, mode string) {
 	for _, key := range x.guardedKeys(own.TKey, own.Field) {
 		x.e.heapHavoc(p, key)
 	}
+	if x.clockStable {
+		// `clock_stable` fixes one clock value per critical section, not across a wait for a lock: a reading taken
+		// before Lock() may be older than the ones taken after it
+		t := x.e.fresh("now", "Int")
+		p.assume("(>= " + t + " " + p.clock + ")")
+		p.clock = t
+	}
 	x.assumeLockInv(p, own)
 	p.trace = append(p.trace, "lock:"+label)
 	if x.fc != nil && x.fc.Atomic != "" && !p.atomicTaken && p.top().depth == 0 && label == x.fc.Atomic {
